@@ -163,6 +163,18 @@ def insert_topology(topology, port_path, target_path):
 
     return topology
 
+def _clear_pending_commands(processes):
+    '''Forget the command state that ``copy.deepcopy`` carried over from
+    the original processes to their copies.'''
+    if isinstance(processes, dict):
+        for process in processes.values():
+            _clear_pending_commands(process)
+    elif isinstance(processes, Process) and not isinstance(
+            processes, ParallelProcess):
+        processes._pending_command = None
+        processes._command_result = None
+
+
 def convert_path(path):
     if isinstance(path, list):
         path = tuple(path)
@@ -1393,6 +1405,10 @@ class Store:
                 mother_processes = self.get_path(mother_path).get_processes()
                 processes = copy.deepcopy(mother_processes)
                 processes = processes or {}
+                # The mother's processes may have a command pending (an
+                # update that was requested but not collected yet). The
+                # copies are new processes that were never sent one.
+                _clear_pending_commands(processes)
 
             # get the daughter topology
             if 'topology' in daughter:
